@@ -432,6 +432,15 @@ func listingEvent(code []ins, start, dialect, m int, via string) string {
 	if dialect == 94 && (m+start+len(code))%2 == 0 {
 		cfg.Mode = gmars.NOP94 // the third simulator mode is a '94 dialect too
 	}
+	// the listing does not depend on the read/write limits of the simulator that prints it
+	switch (m + 2*start + len(code)) % 4 {
+	case 1:
+		cfg.ReadLimit, cfg.WriteLimit = gmars.Address((m+1)/2), gmars.Address(m)
+	case 2:
+		cfg.ReadLimit, cfg.WriteLimit = 1, gmars.Address((m+2)/3)
+	case 3:
+		cfg.ReadLimit, cfg.WriteLimit = gmars.Address(m), 1
+	}
 	// the warrior must come from the assembler or the loader of the same dialect
 	text := printLoadFile(code, start, dialect, m, nil, false)
 	var wd gmars.WarriorData
